@@ -11,8 +11,7 @@
                 on leaving DProc
      [Step s s' = Inv s' /\ E s s'] is proved for every function of the model up to [run_all] and
      [step_op]; [run_props] / [reach_props] state the consequences for the traces the engines print. *)
-From Coq Require Import ZArith ZifyN ZifyBool Lia List NArith Bool String.
-From MV Require Import Gen.Consts Proofs.ConstsProofs.
+From Coq Require Import ZArith ZifyN ZifyBool Lia List NArith Bool.
 From MV Require Import Base.Prelude Model.RespQueue Model.Inbound Proofs.InboundLogic.
 Import ListNotations.
 Open Scope N_scope.
@@ -325,6 +324,10 @@ Definition ndisc (ws : list (N * N * N)) : nat := length (filter is_disc ws).
 
 Definition kclosed (a : core) : bool := k_closing a || k_stopped a.
 
+(* a written packet: one of the types this endpoint answers with, u16 identifier, u8 reason *)
+Definition trip_wf (x : N * N * N) : Prop :=
+  In (fst (fst x)) [64; 80; 112; 144; 176; 208; 224] /\ snd (fst x) < 65536 /\ snd x < 256.
+
 Record Ek (a b : core) : Prop := mkEk {
   e_c : k_c b = k_c a;
   e_dsent : dsent (k_p a) = true -> dsent (k_p b) = true;
@@ -334,8 +337,8 @@ Record Ek (a b : core) : Prop := mkEk {
              (kclosed a = true -> ws = []) /\
              (ndisc ws + (if dsent (k_p a) then 1 else 0) <= 1)%nat /\
              (ndisc ws = 1%nat -> dsent (k_p b) = true) /\
-             (forall x, In x ws -> is_disc x = true ->
-                snd (fst x) = 0 /\ if v5 (k_c a) then 128 <= snd x else snd x = 0);
+             (forall x, In x ws -> trip_wf x /\ (is_disc x = true ->
+                snd (fst x) = 0 /\ if v5 (k_c a) then 128 <= snd x else snd x = 0));
   e_dst : k_dst a <> DProc -> k_dst b <> DProc /\ stops (k_l b) = stops (k_l a);
   e_stops : k_dst a = DProc ->
             stops (k_l b) = stops (k_l a) \/ (stops (k_l b) = stops (k_l a) + 1 /\ k_dst b <> DProc)
@@ -380,7 +383,7 @@ Proof.
     + intros H. destruct (ndisc w2) as [|n] eqn:N2; auto.
       * apply B2, A8. clear - H. lia.
       * apply B8. clear - B7 H. destruct (dsent (k_p b)); lia.
-    + intros x Hx Hd. apply in_app_or in Hx as [Hx|Hx]; auto. rewrite <- A1. auto.
+    + intros x Hx. apply in_app_or in Hx as [Hx|Hx]; auto. rewrite <- A1. auto.
   - intros H. destruct (A10 H) as [H1 H2]. destruct (B10 H1) as [H3 H4]. split; congruence.
   - intros H. destruct (A11 H) as [H1|[H1 H2]].
     + destruct (dstate_eq_dec_proc (k_dst b)) as [Hb|Hb].
@@ -586,32 +589,34 @@ Lemma Kw_id s : Kw (wire (i_ s)) (K s) = K s. Proof. reflexivity. Qed.
 Lemma kclosed_K s : kclosed (K s) = closedio s. Proof. reflexivity. Qed.
 
 Lemma Ek_Kw a ws :
-  ndisc ws = 0%nat -> (kclosed a = true -> ws = []) -> Ek a (Kw (k_wire a ++ flat3 ws) a).
+  ndisc ws = 0%nat -> (kclosed a = true -> ws = []) -> Forall trip_wf ws -> Ek a (Kw (k_wire a ++ flat3 ws) a).
 Proof.
-  intros Hn Hc. constructor; cbn [Kw k_c k_p k_l k_q k_wire k_closing k_stopped k_dst]; auto.
-  - exists ws. repeat split; auto.
-    + rewrite Hn. destruct (dsent (k_p a)); lia.
-    + rewrite Hn. discriminate.
-    + unfold ndisc in Hn. apply length_zero_iff_nil in Hn.
-      assert (In x (filter is_disc ws)) by (apply filter_In; auto). rewrite Hn in *. contradiction.
-    + unfold ndisc in Hn. apply length_zero_iff_nil in Hn.
-      assert (In x (filter is_disc ws)) by (apply filter_In; auto). rewrite Hn in *. contradiction.
+  intros Hn Hc Hwf. constructor; cbn [Kw k_c k_p k_l k_q k_wire k_closing k_stopped k_dst]; auto.
+  - exists ws. split; [reflexivity|]. split; [exact Hc|]. split; [rewrite Hn; destruct (dsent (k_p a)); lia|].
+    split; [rewrite Hn; discriminate|].
+    intros x Hx. split; [rewrite Forall_forall in Hwf; auto|]. intros Hd.
+    unfold ndisc in Hn. apply length_zero_iff_nil in Hn.
+    assert (In x (filter is_disc ws)) by (apply filter_In; auto). rewrite Hn in *. contradiction.
 Qed.
 
 Lemma emit_spec l : forall s,
   Forall (code_ok (closedio s)) l ->
   exists ws, K (emit l s) = Kw (wire (i_ s) ++ flat3 ws) (K s) /\ ndisc ws = 0%nat /\
-             (closedio s = true -> ws = []).
+             (closedio s = true -> ws = []) /\ Forall trip_wf ws.
 Proof.
   induction l as [|b l IH]; intros s Hl.
   - exists []. cbn [emit flat3 flat_map]. rewrite app_nil_r. auto.
   - inversion Hl as [|? ? (t & id & x & -> & H1 & H2 & H3) Hl']; subst.
     cbn [emit]. rewrite wire_fields_code by assumption.
-    destruct (IH (io_encode t id x s)) as (ws & E1 & E2 & E3); [now rewrite io_encode_closedio|].
+    destruct (IH (io_encode t id x s)) as (ws & E1 & E2 & E3 & E4); [now rewrite io_encode_closedio|].
     rewrite io_encode_closedio in E3. rewrite E1, K_io_encode, Kw_Kw, io_encode_wire.
     destruct (closedio s) eqn:Hc.
     + exists []. rewrite (E3 eq_refl). cbn [flat3 flat_map]. auto.
-    + exists ((t, id, x) :: ws). cbn [flat3 flat_map fst snd]. rewrite <- app_assoc. repeat split; auto; try discriminate.
+    + assert (Htw : trip_wf (t, id, x)).
+      { unfold trip_wf. cbn [fst snd]. repeat split; auto. destruct H3 as [H3|[-> _]]; [|cbn; auto 10].
+        unfold acktype in H3. cbn [In] in *. intuition. }
+      exists ((t, id, x) :: ws). cbn [flat3 flat_map fst snd]. rewrite <- app_assoc.
+      split; [reflexivity|]. split; [|split; [discriminate|constructor; auto]].
       unfold ndisc in *. cbn [filter]. unfold is_disc at 1. cbn [fst].
       destruct (N.eqb_spec t 224) as [->|Ht]; auto.
       destruct H3 as [H3|[_ H3]]; [|discriminate]. cbv in H3. intuition discriminate.
@@ -666,7 +671,7 @@ Proof.
   destruct Hs3 as (C1 & C2 & C3 & C4 & C5 & C6 & C7 & C8 & C9 & C10 & C11).
   set (s4 := set_q q1 s3).
   assert (Hcl : closedio s4 = closedio s) by (unfold closedio, s4; cbn [set_q i_]; now rewrite C4).
-  destruct (emit_spec new s4) as (ws & W1 & W2 & W3); [now rewrite Hcl|].
+  destruct (emit_spec new s4) as (ws & W1 & W2 & W3 & W4); [now rewrite Hcl|].
   rewrite Hcl in W3.
   assert (Hw4 : wire (i_ s4) = wire (i_ s)) by (unfold s4; cbn [set_q i_]; now rewrite C4).
   rewrite Hw4 in W1.
@@ -766,7 +771,7 @@ Lemma E_R s s' ws :
   (closing (i_ s) = true -> closing (i_ s') = true) ->
   wire (i_ s') = wire (i_ s) ++ flat3 ws -> (closedio s = true -> ws = []) ->
   (ndisc ws + (if dsent (p_ s) then 1 else 0) <= 1)%nat -> (ndisc ws = 1%nat -> dsent (p_ s') = true) ->
-  (forall x, In x ws -> is_disc x = true -> snd (fst x) = 0 /\ if v5 (c_ s) then 128 <= snd x else snd x = 0) ->
+  (forall x, In x ws -> trip_wf x /\ (is_disc x = true -> snd (fst x) = 0 /\ if v5 (c_ s) then 128 <= snd x else snd x = 0)) ->
   E s s'.
 Proof.
   intros HR Hd Hcl Hw H1 H2 H3 H4. unfold R in HR. injection HR as R1 R2 R3 R4 R5 R6 R7 R8 R9 R10.
@@ -805,15 +810,35 @@ Proof.
     try exact I; try lia; unfold trip_ok, acktype; cbn [In]; repeat split; try lia; auto 10.
 Qed.
 
-Lemma body_step p s : Inv s -> Step s (fst (proto_body p s)).
+Lemma body_wire_ok p s :
+  pkt_ok p ->
+  exists w, wire (i_ (fst (proto_body p s))) = wire (i_ s) ++ w /\
+    (w = [] \/
+     (exists t id, In t [64; 80; 144; 176] /\ id < 65536 /\ w = [t; id; 145]) \/
+     (exists r, w = [224; 0; r] /\ dsent (p_ s) = false /\ dsent (p_ (fst (proto_body p s))) = true /\
+                r = if v5 (c_ s) then 131 else 0)).
 Proof.
-  intros I. split.
+  intros Hp.
+  destruct p; cbn [pkt_ok] in Hp; bodies; repeat dm; cbn [fst];
+    rewrite ?io_close_wire, ?io_encode_wire; cbn [i_ up_p];
+    rewrite ?io_close_wire, ?io_encode_wire; cbn [i_ up_p];
+    repeat dm;
+    try (exists []; split; [apply app_nil_end'|left; reflexivity]);
+    try (eexists; split; [reflexivity|]);
+    try (right; left; do 2 eexists; split; [|split; [|reflexivity]]; [cbn; tauto|assumption]);
+    try (right; right; eexists; split; [reflexivity|]; pcalc; repeat split; auto; try congruence;
+         match goal with H : ?x = _ |- context [if ?x then _ else _] => rewrite H end; reflexivity).
+Qed.
+
+Lemma body_step p s : Inv s -> pkt_ok p -> Step s (fst (proto_body p s)).
+Proof.
+  intros I Hp. split.
   - apply (Inv_R s); auto using R_body, CL_body, body_closing_mono.
-  - destruct (body_wire p s) as (w & Hw & D).
+  - destruct (body_wire_ok p s Hp) as (w & Hw & D).
     assert (Hc : closedio s = true -> w = []).
     { intros Hc. rewrite (body_wire_closed p s Hc) in Hw. rewrite <- (app_nil_r (wire (i_ s))) in Hw at 1.
       now apply app_inv_head in Hw. }
-    destruct D as [|t id Ht|r Hd Hd' Hcl Hr].
+    destruct D as [->|[(t & id & Ht & Hid & ->)|(r & -> & Hd & Hd' & Hr)]].
     + rewrite app_nil_r in Hw.
       apply (E_R s _ [] (R_body _ _) (body_dsent_mono _ _) (body_closing_mono _ _)); cbn [flat3 flat_map ndisc filter length];
         rewrite ?app_nil_r; auto; try (destruct (dsent (p_ s)); lia); try discriminate; try contradiction.
@@ -825,14 +850,18 @@ Proof.
       * rewrite Hcs; discriminate.
       * rewrite Hn. destruct (dsent (p_ s)); lia.
       * rewrite Hn. discriminate.
-      * intros x [<-|[]]. unfold is_disc. cbn [fst]. cbn [In] in Ht.
-        destruct Ht as [<-|[<-|[<-|[<-|[]]]]]; discriminate.
+      * intros x [<-|[]]. split.
+        -- unfold trip_wf. cbn [fst snd]. split; [cbn [In] in *; intuition|split; [assumption|lia]].
+        -- unfold is_disc. cbn [fst]. cbn [In] in Ht.
+           destruct Ht as [<-|[<-|[<-|[<-|[]]]]]; discriminate.
     + destruct (closedio s) eqn:Hcs; [specialize (Hc eq_refl); discriminate|].
       apply (E_R s _ [(224, 0, r)] (R_body _ _) (body_dsent_mono _ _) (body_closing_mono _ _) Hw).
       * rewrite Hcs; discriminate.
       * rewrite Hd. unfold ndisc, is_disc. cbn [filter fst]. change (224 =? 224) with true. cbn. lia.
       * auto.
-      * intros x [<-|[]] _. cbn [fst snd]. subst r. split; auto. destruct (v5 (c_ s)); [lia|reflexivity].
+      * intros x [<-|[]]. split.
+        -- unfold trip_wf. cbn [fst snd]. subst r. split; [cbn [In]; auto 10|split; [lia|destruct (v5 (c_ s)); lia]].
+        -- intros _. cbn [fst snd]. subst r. split; auto. destruct (v5 (c_ s)); [lia|reflexivity].
 Qed.
 Lemma E_R0 s s' :
   R s' = R s -> (dsent (p_ s) = true -> dsent (p_ s') = true) ->
@@ -905,7 +934,8 @@ Proof.
         -- rewrite Hc. discriminate.
         -- rewrite Hd. unfold ndisc, is_disc. cbn [filter fst]. change (224 =? 224) with true. cbn. lia.
         -- intros _. rewrite io_close_p, io_encode_p. reflexivity.
-        -- intros x [<-|[]] _. cbn [fst snd]. rewrite Hv. auto.
+        -- intros x [<-|[]]. split; [unfold trip_wf; cbn [fst snd In]; split; [auto 10|split; lia]|].
+           intros _. cbn [fst snd]. rewrite Hv. auto.
 Qed.
 
 Lemma Step_up_p g s : Inv s -> (dsent (p_ s) = true -> dsent (g (p_ s)) = true) -> Step s (up_p g s).
@@ -1030,7 +1060,7 @@ Lemma body_full_step who k p s :
   Step s (fst (body who k p s)) /\ opt_res_ok (fst (body who k p s)) (snd (body who k p s)).
 Proof.
   intros I Hp. rewrite body_proto_body.
-  pose proof (body_step p s I) as S1. pose proof (body_outcome_ok p s Hp) as O1.
+  pose proof (body_step p s I Hp) as S1. pose proof (body_outcome_ok p s Hp) as O1.
   destruct (proto_body p s) as [s1 o]. cbn [fst snd] in S1, O1.
   destruct o as [r|q2 qos id topic plen retain|m|m qos id topic plen retain]; cbn [outcome_ok] in O1.
   - cbn [fst snd opt_res_ok]. auto.
@@ -1319,9 +1349,11 @@ Proof.
                (mkCore c (p_dsent true p) ll q (w ++ [224; 0; reason]) cl st ch rb (DShut ShInit) sg le qe)).
   { intros ll Hp Hc Hr Hv Hl. constructor; cbn [k_c k_p k_l k_q k_wire k_closing k_stopped k_dst]; auto.
     - exists [(224, 0, reason)]. unfold kclosed. cbn [flat3 flat_map fst snd k_closing k_stopped k_p k_c]. rewrite Hc, Hp, Hv.
-      repeat split; auto; try discriminate;
-        try (unfold ndisc, is_disc; cbn [filter fst]; change (224 =? 224) with true; cbn; lia);
-        try (match goal with Hx : In _ [_] |- _ => destruct Hx as [<-|[]] end; cbn [fst snd]; first [reflexivity|lia]).
+      split; [reflexivity|]. split; [discriminate|].
+      split; [unfold ndisc, is_disc; cbn [filter fst]; change (224 =? 224) with true; cbn; lia|].
+      split; [reflexivity|].
+      intros x [<-|[]]. split; [unfold trip_wf; cbn [fst snd In]; split; [auto 10|split; lia]|].
+      intros _. cbn [fst snd]. split; [reflexivity|lia].
     - intros H; contradiction.
     - intros _. destruct Hl as [Hl|Hl]; [left; auto|right; split; [auto|discriminate]]. }
   assert (L1 : forall x : lst, stops (l_stops (stops x + 1) (if stops x =? 0 then l_stop1 kind x else x)) = stops x + 1)
@@ -1673,8 +1705,8 @@ Definition props_from (s : st) (tr : list st) : Prop :=
   (exists ws, cumwire tr = flat3 ws /\
      (ndisc ws + (if dsent (p_ s) then 1 else 0) <= 1)%nat /\
      (closedio s = true -> ws = []) /\
-     (forall x, In x ws -> is_disc x = true ->
-        snd (fst x) = 0 /\ if v5 (c_ s) then 128 <= snd x else snd x = 0)) /\
+     (forall x, In x ws -> trip_wf x /\ (is_disc x = true ->
+        snd (fst x) = 0 /\ if v5 (c_ s) then 128 <= snd x else snd x = 0))) /\
   (forall s', In s' tr ->
      stops (l_ s') <= stops (l_ s) + (if dstate_eq_dec_proc (dst (s_ s)) then 1 else 0)).
 
@@ -1707,7 +1739,7 @@ Proof.
         -- rewrite (W4 eq_refl) in V2. clear - V2. lia.
         -- clear - W3. lia.
     + intros Hc. rewrite (W2 Hc). cbn [app]. apply V3. apply (closedio_mono s); auto.
-    + intros x Hx Hd. apply in_app_or in Hx as [Hx|Hx]; auto. rewrite <- C1. auto.
+    + intros x Hx. apply in_app_or in Hx as [Hx|Hx]; auto. rewrite <- C1. auto.
   - intros s' [<-|Hin].
     + destruct (dstate_eq_dec_proc (dst (s_ s))) as [Hp|Hp].
       * destruct (C7 Hp) as [H|[H _]]; clear - H; lia.
@@ -1856,8 +1888,8 @@ Lemma props_init s ops :
   Inv s -> wire (i_ s) = [] -> dsent (p_ s) = false -> dst (s_ s) = DProc -> stops (l_ s) = 0 ->
   Forall field_ok ops ->
   (exists ws, cumwire (trace ops s) = flat3 ws /\ (ndisc ws <= 1)%nat /\
-     (forall x, In x ws -> is_disc x = true ->
-        snd (fst x) = 0 /\ if v5 (c_ s) then 128 <= snd x else snd x = 0)) /\
+     (forall x, In x ws -> trip_wf x /\ (is_disc x = true ->
+        snd (fst x) = 0 /\ if v5 (c_ s) then 128 <= snd x else snd x = 0))) /\
   (forall s', In s' (trace ops s) -> stops (l_ s') <= 1) /\
   run_ops ops s = map observe (trace ops s).
 Proof.
@@ -1872,7 +1904,7 @@ Theorem server_run is5 cf ops :
   Forall field_ok ops ->
   let s := init_st is5 cf in
   (exists ws, cumwire (trace ops s) = flat3 ws /\ (ndisc ws <= 1)%nat /\
-     (forall x, In x ws -> is_disc x = true -> snd (fst x) = 0 /\ if is5 then 128 <= snd x else snd x = 0)) /\
+     (forall x, In x ws -> trip_wf x /\ (is_disc x = true -> snd (fst x) = 0 /\ if is5 then 128 <= snd x else snd x = 0))) /\
   (forall s', In s' (trace ops s) -> stops (l_ s') <= 1) /\
   run_ops ops s = map observe (trace ops s).
 Proof. intros H. apply props_init; auto using init_st_Inv. Qed.
@@ -1881,7 +1913,7 @@ Theorem client_run is5 cf ops :
   Forall field_ok ops ->
   let s := init_st_cli is5 cf in
   (exists ws, cumwire (trace ops s) = flat3 ws /\ (ndisc ws <= 1)%nat /\
-     (forall x, In x ws -> is_disc x = true -> snd (fst x) = 0 /\ if is5 then 128 <= snd x else snd x = 0)) /\
+     (forall x, In x ws -> trip_wf x /\ (is_disc x = true -> snd (fst x) = 0 /\ if is5 then 128 <= snd x else snd x = 0))) /\
   (forall s', In s' (trace ops s) -> stops (l_ s') <= 1) /\
   run_ops ops s = map observe (trace ops s).
 Proof. intros H. apply props_init; auto using init_st_cli_Inv. Qed.
@@ -1905,31 +1937,10 @@ Proof.
   rewrite A, (C Hc). reflexivity.
 Qed.
 
-(* ---- the numbers the model uses are the numbers of the Rust tables (Gen/Consts.v) *)
-Lemma model_codes :
-  reason_code_of "Pub_3_3_4_7" = Some 147 /\ reason_code_of "Pub_3_3_4_9" = Some 147 /\
-  reason_code_of "Connack_3_2_2_11" = Some 155 /\
-  lookup "TopicAliasInvalid" gen_enum_v5_DisconnectReasonCode = Some 148 /\
-  reason_code_of "Connack_3_2_2_17" = Some 130 /\ reason_code_of "Pub_3_3_2_2" = Some 130 /\
-  reason_code_of "PacketId_2_2_1_3_Pub" = Some 130 /\ reason_code_of "PacketId_2_2_1_3_Sub" = Some 130 /\
-  reason_code_of "PacketId_2_2_1_3_Unsub" = Some 130 /\ reason_code_of "Subs_4_7_1" = Some 130 /\
-  reason_code_of "Disconnect_3_14_2_22" = Some 130 /\
-  proto_reason_code_of "_" = Some 131 /\ stop_reason EServ = 131 /\
-  lookup "PacketIdentifierInUse" gen_enum_v5_PublishAckReason = Some 145 /\
-  lookup "PacketIdentifierInUse" gen_enum_v5_SubscribeAckReason = Some 145 /\
-  lookup "PacketIdentifierInUse" gen_enum_v5_UnsubscribeAckReason = Some 145 /\
-  lookup "PacketIdNotFound" gen_enum_v5_PublishAck2Reason = Some 146 /\
-  lookup "UnspecifiedError" gen_enum_v5_DisconnectReasonCode = Some 128 /\
-  lookup "DISCONNECT" gen_packet_types = Some 224 /\ lookup "PUBACK" gen_packet_types = Some 64 /\
-  lookup "PUBREC" gen_packet_types = Some 80 /\ lookup "PUBCOMP" gen_packet_types = Some 112 /\
-  lookup "SUBACK" gen_packet_types = Some 144 /\ lookup "UNSUBACK" gen_packet_types = Some 176 /\
-  lookup "PINGRESP" gen_packet_types = Some 208.
-Proof. repeat split; reflexivity. Qed.
-
 Lemma init_states is5 cf :
   Inv (init_st is5 cf) /\ wire (i_ (init_st is5 cf)) = [] /\
   Inv (init_st_cli is5 cf) /\ wire (i_ (init_st_cli is5 cf)) = [].
-Proof. repeat split; auto using init_st_Inv, init_st_cli_Inv. Qed.
+Proof. split; [apply init_st_Inv|split; [reflexivity|split; [apply init_st_cli_Inv|reflexivity]]]. Qed.
 
 (* deviation witnesses (the model reproduces the real crate on them) *)
 Lemma a2_witness :
